@@ -41,7 +41,8 @@ META = {
             "sequences of (address, value) elements for every history of push/pull both ends, insert/remove at any index, "
             "at for any signed index, fore/back, sort_fore/sort_back/push_sort, element swap (a_que_swap_), whole-queue "
             "swap, drop, setz, dtor+ctor, under EVERY allocator fault schedule: each step either reports failure (only "
-            "possible when a request was refused; state unchanged, drop/setz: a suffix remains) or has the abstract effect; "
+            "possible when a request was refused; both sequences unchanged - also for drop/setz, which are proved all-or-nothing: "
+            "que_drop_all_or_nothing, que_setz_all_or_nothing) or has the abstract effect; "
             "elements keep their (address, value) pair while enqueued; a node handed out is not enqueued; num_ = length; "
             "pool and rings disjoint (que_history, que_step, que_no_fault, que_invariant_facts). The three bodies as found "
             "in the pinned tree (a_slist_rot on one node, a_que_swap, a_que_swap_ on neighbours) are proved to break the "
@@ -854,12 +855,44 @@ def gen_queue(rng, nops, faults):
             line = "drop %d" % s
         else:
             line = "setz %d %d" % (s, rng.choice([0, 1, 4, 8, 12, 24, 40]))
+        if faults and line.split()[0] in ("drop", "setz") and rng.random() < 0.6:
+            # aim at the all-or-nothing boundary: refuse the first / second request of this very call
+            pre = "sched " + " ".join(["1"] * rng.choice([0, 0, 1]) + ["0"])
+            m.step("sched", pre.split()[1:])
+            out.append(pre)
         t = line.split()
         try:
             m.step(t[0], t[1:])
         except Pre:
             continue
         out.append(line)
+    return out, m.tags
+
+
+def gen_queue_dropfault(rng):
+    """aimed at the all-or-nothing boundary of a_que_drop / a_que_setz: some nodes already pooled, a
+    pool array that has room for a few more but not for all, and the next allocator request refused"""
+    m = QU(True)
+    out = ["Q"]
+
+    def emit(line):
+        t = line.split()
+        m.step(t[0], t[1:])
+        out.append(line)
+    s = rng.choice([0, 1])
+    k = rng.choice([2, 3, 5, 8, 9, 10, 12, 17, 20])
+    for i in range(k):
+        emit("%s %d %d" % (rng.choice(["push_back", "push_fore"]), s, rng.randint(0, 9)))
+    for _ in range(rng.randint(1, k - 1)):
+        emit("%s %d" % (rng.choice(["pull_fore", "pull_back"]), s))
+    for _ in range(rng.choice([0, 0, 1, 3, 9])):
+        emit("push_back %d %d" % (s, rng.randint(0, 9)))
+    emit("sched " + " ".join(["1"] * rng.choice([0, 0, 0, 1]) + ["0"]))
+    emit(rng.choice(["drop %d" % s, "setz %d %d" % (s, rng.choice([4, 8, 24]))]))
+    emit("at %d 0" % s)
+    emit("push_back %d 5" % s)
+    emit("pull_fore %d" % s)
+    emit("drop %d" % s)
     return out, m.tags
 
 
@@ -1157,6 +1190,13 @@ def run(ctx):
             hs.append(h)
             add_tags("que:" + t for t in tg)
         batches.append(("queue", hs, True))
+        rng = random.Random(ctx.subseed("queue-dropfault-%d" % sd))
+        hs = []
+        for i in range(80 if quick else 800):
+            h, tg = gen_queue_dropfault(rng)
+            hs.append(h)
+            add_tags("que:" + t for t in tg)
+        batches.append(("queue-dropfault", hs, True))
         if not quick and sd == 0:
             batches.append(("slist-exhaustive-small", exhaustive_small("S"), True))
             batches.append(("queue-exhaustive-small", exhaustive_small("Q"), True))
